@@ -86,6 +86,8 @@ Atom(n) == CASE n = "/"      -> [src |-> "/", kind |-> "sep", dec |-> <<47>>]
              [] n = "lead2"  -> [src |-> "%C3", kind |-> "lit", dec |-> <<195>>]                \* lead byte without continuation
              [] n = "lead3"  -> [src |-> "%E2%82", kind |-> "lit", dec |-> <<226, 130>>]         \* truncated 3-byte
              [] n = "ff"     -> [src |-> "%FF", kind |-> "lit", dec |-> <<255>>]
+             [] n = "pad"    -> [src |-> "PAD", kind |-> "lit", dec |-> <<2>>]    \* the binding expands "PAD" / byte 2 to a run of "P" sized so that
+                                                                                \* the text after the scheme is exactly 127, 128 or 129 bytes long
              [] n = "long"   -> [src |-> "LONG", kind |-> "lit", dec |-> <<1>>]   \* the binding expands "LONG" and byte 1 to 130 x "L" (heap-buffer path)
 
 Query(n) == CASE n = "none" -> [src |-> "", has |-> FALSE, ok |-> TRUE, dec |-> ""]
